@@ -6,6 +6,7 @@ package main
 
 import (
 	"go/token"
+	"fmt"
 	"go/types"
 
 	"golang.org/x/tools/go/ssa"
@@ -248,6 +249,39 @@ func dischargeIndexSSA(p *Prog, in ssa.Instruction) (string, bool) {
 		}
 		if !writes {
 			return "a dominating test idx < len(S) on the same slice, an index that starts at a non-negative constant and only grows, and no write of the slice between test and use", true
+		}
+	}
+	// E: a fixed-size table indexed under a dominating call of a range predicate on the index
+	//    (`if !style.valid() { return }; table[style]` with valid = `s >= 0 && int(s) < len(table)`)
+	{
+		var n int64 = -1
+		t := x.Type()
+		if pt, ok := t.Underlying().(*types.Pointer); ok {
+			t = pt.Elem()
+		}
+		if at, ok := t.Underlying().(*types.Array); ok {
+			n = at.Len()
+		}
+		if n > 0 {
+			// the index is a small enumeration: every value it can take (constants returned by module functions, handed
+			// down through parameters at every call site) lies inside the table
+			if iv := p.bounds(stripNum(idx), nil, 0); iv.lo >= 0 && iv.hi < n {
+				return fmt.Sprintf("a fixed-size table of %d entries indexed by a value that interval analysis over all its sources bounds to %d..%d", n, iv.lo, iv.hi), true
+			}
+			for _, g := range guardsOf(in.Block()) {
+				c, pol := flattenCond(g.Cond, g.Pol)
+				call, ok := c.(*ssa.Call)
+				if !ok || !pol || call.Common().StaticCallee() == nil {
+					continue
+				}
+				args := callArgs(call.Common())
+				if len(args) != 1 || (stripNum(args[0]) != stripNum(idx) && !sameVar(stripNum(args[0]), stripNum(idx))) {
+					continue
+				}
+				if rng, ok := predicateRange(p, call.Common().StaticCallee()); ok && rng.lo >= 0 && rng.hi < n {
+					return fmt.Sprintf("a fixed-size table of %d entries indexed on the true side of %s, which holds only for %d ≤ index ≤ %d", n, relFunc(call.Common().StaticCallee()), rng.lo, rng.hi), true
+				}
+			}
 		}
 	}
 	// D: index getter of a copy under construction: recv.F[i] with i the parameter
